@@ -8,11 +8,11 @@ RULE = ("TLC generates domain expressions (all of depth <= 1 over a pool of 11 2
         "their own boundary samples; non-trivial = expression whose judged points contain both inside and outside points")
 
 
-def scenarios(ctx, stride_q=3):
+def scenarios(ctx, stride_q=3, nsim_q=40):
     scen = ctx.gen("Gen_Geo", "Gen_Geo_exh")
     if ctx.quick:
         scen = scen[ctx.seed % stride_q::stride_q]
-    sim = ctx.gen("Gen_Geo", "Gen_Geo_sim" if ctx.quick else "Gen_Geo_sim4", simulate="num=%d" % (40 if ctx.quick else 600), depth=6)
+    sim = ctx.gen("Gen_Geo", "Gen_Geo_sim" if ctx.quick else "Gen_Geo_sim4", simulate="num=%d" % (nsim_q if ctx.quick else 600), depth=6)
     return scen + sim
 
 
